@@ -20,11 +20,11 @@ def corr_cases(strength):
     cases = [
         # (mesh, space kind, space kwargs, operator, wavenumber)
         ("strip2", "DP0", {}, "slp", None),
-        ("strip2", "DP1", {}, "slp", None),
+        ("strip2", "DP1", {"swapped_normals": [1]}, "slp", None),
         ("strip2", "P1", {"include_boundary_dofs": True}, "lap_hyp", None),
         ("strip3", "P1", {"include_boundary_dofs": True}, "helm_hyp", 1.5 + 0.5j),
         ("fan4", "P1", {}, "lap_hyp", None),
-        ("tet", "P1", {}, "modhelm_hyp", 0.75),
+        ("tet", "P1", {"swapped_normals": [1]}, "modhelm_hyp", 0.75),
         ("tet", "P1seg", {"segments": [1], "include_boundary_dofs": True}, "helm_hyp", 2.0),
         ("strip3", "RWG", {"include_boundary_dofs": True}, "efield", 1.25 + 0.25j),
         ("tet", "RWG", {}, "efield", 0.5),
